@@ -19,9 +19,20 @@ pub fn dispatch(ctx: &mut Ctx, op: &str, call: &Value) -> Option<Value> {
                 None => return Some(out::skipped()),
                 Some(bi) => bi,
             };
+            // "via": "cast" - the other public route to the typed tag: walk the tags, cast the first one of the type
+            let via_cast = out::arg_str(call, "via") == "cast";
+            let first_of = |ty: u32| bi.tags().find(|t| u32::from(t.header().typ) == ty);
             let it = match op {
                 "tags" => It::Tags(bi.tags()),
                 "module_tags" => It::Mods(bi.module_tags()),
+                "efi_areas" if via_cast => match first_of(17) {
+                    None => return Some(out::none()),
+                    Some(t) => It::Efi(Box::new(t.cast::<multiboot2::EFIMemoryMapTag>().memory_areas())),
+                },
+                "elf_sections" if via_cast => match first_of(9) {
+                    None => return Some(out::none()),
+                    Some(t) => It::Elf(t.cast::<multiboot2::ElfSectionsTag>().sections()),
+                },
                 "efi_areas" => match bi.efi_memory_map_tag() {
                     None => return Some(out::none()),
                     Some(t) => It::Efi(Box::new(t.memory_areas())),
@@ -667,7 +678,14 @@ fn dbg(ctx: &Ctx, bi: Bi, what: &str, call: &Value) -> Value {
     let mut s = String::new();
     macro_rules! d {
         ($e:expr) => {
-            { write!(s, "{:?}", $e).unwrap(); write!(s, "{:#?}", $e).unwrap() }
+            {
+                write!(s, "{:?}", $e).unwrap();
+                write!(s, "{:#?}", $e).unwrap();
+                // ... and into sinks that refuse after a few bytes: Debug reports the error, it does not panic
+                for n in [0usize, 5, 40] {
+                    let _ = write!(crate::out::Limited(n), "{:?}", $e);
+                }
+            }
         };
     }
     match what {
